@@ -73,6 +73,10 @@ type Config struct {
 	Known         []KnownFinding
 	MaxViolations int
 	Deadline      time.Time
+	// FixedModel/FixedChoices turn the run into a deterministic concrete
+	// re-execution of one counterexample.
+	FixedModel   map[string]uint64
+	FixedChoices []int
 	Verbose       bool
 }
 
@@ -520,6 +524,18 @@ func (i *interpreter) choose(n int, what string) int {
 		return 0
 	}
 	r := i.run
+	if i.ex.cfg.FixedModel != nil {
+		k := len(r.choices)
+		c := 0
+		if k < len(i.ex.cfg.FixedChoices) {
+			c = i.ex.cfg.FixedChoices[k]
+		}
+		if c >= n {
+			panic(pathEnd{"replay-diverged"})
+		}
+		r.choices = append(r.choices, c)
+		return c
+	}
 	if d, ok := i.nextPrefix("c", what); ok {
 		if d.N != n {
 			panic(engineBug(fmt.Sprintf("replay diverged: choice arity %d vs %d (%s/%s)", d.N, n, d.What, what)))
